@@ -4,6 +4,7 @@ from vlib import core, specgen as g, groups as G
 from props import groupcommon as gc
 
 PROP = "C10"
+KEYS = ["-a", "-b", "-o", "-e"]
 
 
 def want(e):
@@ -45,7 +46,9 @@ def run(tier, wd):
             if len(lines) < 2:
                 continue
             nseq += 1
-            groups.append({"rel": "respell", "members": [{"si": si, "env": [], "argv": l} for l in lines]})
+            # a quarter of the classes with one or two options backed by the environment (the same for every member)
+            env = sorted(rnd.sample(KEYS, rnd.choice([1, 2]))) if rnd.random() < 0.25 else []
+            groups.append({"rel": "respell", "members": [{"si": si, "env": env, "argv": l} for l in lines]})
     triples = gc.run_groups(rep, wd, binpath, [p], specs, groups, "respell")
     gc.finish_groups(rep, [p], specs, triples,
                      "a group = one --free spec x one item sequence (a random sentence of the spec or a one-item perturbation of one) "
